@@ -87,11 +87,12 @@ type rng struct{ b, e int64 }
 
 // shadow is what the harness knows about the staged copy of one name.
 type shadow struct {
-	hash  string // announced hash the ranges below belong to
-	size  int64
-	acked []rng // Receive returned nil and the reader delivered the full length
-	fed   map[int64]byte
-	dirty bool           // some acked byte differs from the true content of the version (or staged copy overwritten)
+	hash         string // announced hash the ranges below belong to
+	size         int64
+	acked        []rng // Receive returned nil and the reader delivered the full length
+	otherOffered bool  // since then a part of another version of the name was offered and not recorded
+	fed          map[int64]byte
+	dirty        bool // some acked byte differs from the true content of the version (or staged copy overwritten)
 }
 
 type Arrival struct {
@@ -378,6 +379,12 @@ func (w *World) receiveAll(parts []PartSpec, tag string) (n int, err error) {
 				s.size = p.V.Size()
 				s.acked = nil
 				s.dirty = false
+				s.otherOffered = false
+			} else {
+				// a part of another version was offered and refused: the receiver may have re-created
+				// or partly overwritten the staged partial (it is keyed by name) while the record still
+				// describes the previous version
+				s.otherOffered = true
 			}
 		}
 		if e != nil {
